@@ -21,7 +21,7 @@ MonNext ==
     /\ IF Ev.act = "Reset"
        THEN /\ status' = "wait" /\ cfg' = 0 /\ cur' = 0
             /\ fsMap' = [m \in Mps |-> 0] /\ store' = [m \in Mps |-> NoRec]
-            /\ insts' = <<>> /\ live' = [m \in Mps |-> <<>>]
+            /\ insts' = <<>> /\ live' = [m \in Mps |-> <<>>] /\ liveLab' = [m \in Mps |-> "none"]
             /\ epoch' = 1 /\ ninit' = 0 /\ hist' = NoHist
        ELSE /\ status' = Ev.status /\ cfg' = Ev.cfg /\ cur' = Ev.cur
             /\ fsMap' = [m \in Mps |-> Ev.fsMap[m]]
@@ -30,11 +30,14 @@ MonNext ==
             /\ insts' = Ev.insts
             /\ epoch' = Ev.epoch
             /\ ninit' = IF Ev.act = "Init" THEN Ev.c ELSE ninit
+            /\ liveLab' = [m \in Mps |-> Ev.liveLab[m]]
             /\ hist' = IF Ev.act \in {"Restart", "MountCrash", "UnmountCrash"} THEN NoHist
-                       ELSE IF Ev.act = "Init"
-                            THEN HistAfterInit(hist, Ev.c, Ev.res, Len(Ev.insts) > Len(insts),
-                                               [m \in Mps |-> Ev.store[m]], [m \in Mps |-> Ev.live[m]])
-                            ELSE hist
+                       ELSE LET lv1 == [m \in Mps |-> Ev.live[m]]
+                                h1  == IF Ev.act = "Init"
+                                       THEN HistAfterInit(hist, Ev.c, Ev.res, Len(Ev.insts) > Len(insts),
+                                                          [m \in Mps |-> Ev.store[m]], lv1)
+                                       ELSE hist
+                            IN WithReqLab(h1, Ev, live, lv1)
 
 MonSpec == MonInit /\ [][MonNext]_mvars
 =============================================================================
